@@ -56,6 +56,46 @@ def observe(m):
     return out
 
 
+def edit_in_place(m):
+    """Move every vertex (in place, on the stored vector objects) and add a face / an edge."""
+    for i in range(len(m.vertices)):
+        v = m.vertices[i]
+        try:
+            v += 7.25
+        except Exception:  # noqa
+            m.vertices[i] = v + 7.25
+    try:
+        if hasattr(m, "faces") and len(m.vertices) >= 3:
+            m.faces.append((0, 1, 2))
+        elif hasattr(m, "edges") and len(m.vertices) >= 2:
+            m.edges.append((0, len(m.vertices) - 1))
+    except Exception:  # noqa
+        pass
+
+
+def shares_storage(a, b):
+    import numpy as np
+    for name in ("vertices", "edges", "faces", "face_corners", "cells"):
+        ca, cb = getattr(a, name, None), getattr(b, name, None)
+        if ca is None or cb is None:
+            continue
+        if ca is cb or getattr(ca, "_data", 0) is getattr(cb, "_data", 1):
+            return "container %s" % name
+    va = [a.vertices[i] for i in range(len(a.vertices))]
+    vb = [b.vertices[i] for i in range(len(b.vertices))]
+    ids = {id(x) for x in va}
+    for j, y in enumerate(vb):
+        if id(y) in ids:
+            return "vertex vector %d" % j
+        for x in va[:64]:
+            try:
+                if np.shares_memory(x, y):
+                    return "vertex buffer %d" % j
+            except Exception:  # noqa
+                pass
+    return None
+
+
 def main():
     import warnings
     warnings.simplefilter("ignore")
@@ -67,9 +107,24 @@ def main():
         np.random.seed(c.get("seed", 0))
         try:
             m = call(c, M)
-            res.append(observe(m))
+            ob = observe(m)
         except Exception as ex:  # noqa
             res.append({"exc": "%s" % (ex,), "exc_type": type(ex).__name__})
+            continue
+        # every call must build a fresh mesh: edit the first result in place, call again with the same parameters
+        try:
+            edit_in_place(m)
+            m2 = call(c, M)
+            ob2 = observe(m2)
+            ob["fresh"] = {"same_object": m2 is m, "shared": shares_storage(m, m2),
+                           "second_equal": all(ob2.get(k) == ob.get(k) for k in ("type", "V", "X", "F", "E", "C", "vattrs", "fattrs", "uv")),
+                           "second": None}
+            if not ob["fresh"]["second_equal"]:
+                ob["fresh"]["second"] = {k: ob2.get(k) for k in ("type", "V", "F")}
+                ob["fresh"]["second"]["X"] = ob2.get("X", [])[:6]
+        except Exception as ex:  # noqa
+            ob["fresh"] = {"error": "%s: %s" % (type(ex).__name__, ex)}
+        res.append(ob)
     print("@@JSON " + json.dumps({"obs": res}))
 
 
